@@ -6,7 +6,7 @@ use syntax::parser::TextRange;
 use crate::{
     file_system::{FileId, FileRange},
     handlers::diagnostics::Diagnostic,
-    symbol_map::{symbol::SymbolId, variable::VariableId, SymbolMap},
+    symbol_map::{symbol::SymbolId, typ::Type, variable::VariableId, SymbolMap},
 };
 
 use super::{scope::Scopes, Index, IndexDatabase};
@@ -19,6 +19,19 @@ pub struct IndexCtx<'a> {
     pub diagnostics: Vec<Diagnostic>,
     pub scopes: Scopes,
     pub anonymous_def_index: u32,
+    /// bindings of the `let ... in` statements around the statement being indexed
+    pub let_bindings: Vec<LetBinding>,
+}
+
+/// One `name = value` item of a `let ... in` statement, applied to the defs in its body.
+pub struct LetBinding {
+    pub name: EcoString,
+    pub name_loc: FileRange,
+    pub value_range: TextRange,
+    /// `None` when the value has no computable type or only some bits are assigned
+    pub value_typ: Option<Type>,
+    /// set once a def in the body has the field: the binding is checked and linked only once
+    pub applied: bool,
 }
 
 impl<'a> IndexCtx<'a> {
@@ -31,6 +44,7 @@ impl<'a> IndexCtx<'a> {
             diagnostics: Vec::new(),
             scopes: Scopes::default(),
             anonymous_def_index: 0,
+            let_bindings: Vec::new(),
         }
     }
 
